@@ -119,7 +119,7 @@ def digest(r):
 
 def one_process(reqs):
     """a fresh OS process (= fresh hash seeds) compiles all requests"""
-    p = subprocess.run([os.path.join(vlib.BIN, "beffc")], input="\n".join(json.dumps(r) for r in reqs) + "\n",
+    p = subprocess.run([vlib.bin_path("beffc")], input="\n".join(json.dumps(r) for r in reqs) + "\n",
                        stdout=subprocess.PIPE, stderr=subprocess.DEVNULL, text=True, timeout=1200)
     out = {}
     for line in p.stdout.splitlines():
